@@ -1,4 +1,5 @@
 import CuriesVerif.Lemmas.Incremental
+import CuriesVerif.Spec.Add
 
 /-!
 # C05 — incrementally built converters stay consistent with their own records
@@ -292,3 +293,136 @@ theorem C05_reject_iff (fold : Str → Str) {c : Conv} (h : WF c) (r : Record) (
     constructor
     · intro _; exact Or.inl hl
     · intro _; exact ⟨_, rfl⟩
+
+theorem filter_eq_singleton {α} (p : α → Bool) (l : List α) (j : Nat) (hj : j < l.length)
+    (hothers : ∀ i (hi : i < l.length), i ≠ j → p l[i] = false) (hjt : p l[j] = true) :
+    l.filter p = [l[j]] := by
+  induction l generalizing j with
+  | nil => simp at hj
+  | cons a as ih =>
+    cases j with
+    | zero =>
+      have hall : ∀ x ∈ as, p x = false := by
+        intro x hx
+        obtain ⟨i, hi, rfl⟩ := List.mem_iff_getElem.mp hx
+        have := hothers (i + 1) (by simp; omega) (by omega)
+        simpa using this
+      have ha : p a = true := by simpa using hjt
+      rw [List.filter_cons, if_pos ha]
+      have : as.filter p = [] := List.filter_eq_nil_iff.mpr (fun x hx => by simp [hall x hx])
+      simp [this]
+    | succ j' =>
+      have ha : p a = false := by
+        have := hothers 0 (by simp) (by omega)
+        simpa using this
+      rw [List.filter_cons, if_neg (by simp [ha])]
+      simpa using ih j' (by simpa using hj) (fun i hi hne => by
+        have := hothers (i + 1) (by simp; omega) (by omega)
+        simpa using this) (by simpa using hjt)
+
+theorem map_replace_eq_set {α} [DecidableEq α] (l : List α) (hn : l.Nodup) (j : Nat) (hj : j < l.length) (m : α) :
+    l.map (fun y => if y = l[j] then m else y) = l.set j m := by
+  induction l generalizing j with
+  | nil => simp at hj
+  | cons a as ih =>
+    have hp := List.nodup_cons.mp hn
+    cases j with
+    | zero =>
+      simp only [List.getElem_cons_zero, List.map_cons, if_true, List.set_cons_zero]
+      congr 1
+      have : ∀ y ∈ as, (if y = a then m else y) = y := fun y hy => by
+        rw [if_neg]; rintro rfl; exact hp.1 hy
+      conv => rhs; rw [← List.map_id as]
+      exact List.map_congr_left (fun y hy => by simpa using this y hy)
+    | succ j' =>
+      have hj' : j' < as.length := by simpa using hj
+      simp only [List.getElem_cons_succ, List.map_cons, List.set_cons_succ]
+      have hne : a ≠ as[j'] := fun e => hp.1 (e ▸ List.getElem_mem hj')
+      rw [if_neg hne, ih hp.2 j' hj']
+
+theorem Unique.nodup {recs : List Record} (h : Unique recs) : recs.Nodup := by
+  unfold Unique at h
+  exact List.Pairwise.imp (fun {a b} hab e => hab.1 a.pfx (by simp [Record.allP]) (by rw [e]; simp [Record.allP])) h
+
+/-- **C05 (the records after an accepted call).** On every well-formed converter an accepted `add_record` leaves
+exactly the records `Spec.afterAdd` computes from the records before: the new record appended when nothing
+matches, merged into the single matching record otherwise. -/
+theorem C05_afterAdd (fold : Str → Str) {c c' : Conv} (h : WF c) (r : Record) (cs merge : Bool)
+    (hok : c.addRecord fold r cs merge = .ok c') :
+    Spec.afterAdd fold c.records r cs merge = some c'.records := by
+  rcases addRecord_spec fold h r cs merge with ⟨hnone, e⟩ | ⟨j, hj, hothers, hjt, e⟩ | ⟨_, e⟩
+  · have hf : c.records.filter (fun x => matchesRec fold cs r x) = [] :=
+      List.filter_eq_nil_iff.mpr (fun x hx => by simp [hnone x hx])
+    rw [e] at hok
+    injection hok with hok
+    subst hok
+    unfold Spec.afterAdd
+    rw [hf]
+    rfl
+  · have hf := filter_eq_singleton (fun x => matchesRec fold cs r x) c.records j hj hothers hjt
+    rw [e] at hok
+    cases merge with
+    | false => simp at hok
+    | true =>
+      simp only [if_true] at hok
+      injection hok with hok
+      subst hok
+      unfold Spec.afterAdd
+      rw [hf]
+      simp only [if_true]
+      show some (List.map _ c.records) = some (c.records.set j _)
+      rw [map_replace_eq_set c.records h.1.nodup j hj]
+  · rw [e] at hok
+    cases hok
+
+
+/-- **C05 (rejected calls, at the level of records).** Whenever the model rejects, the list-level function does. -/
+theorem C05_afterAdd_reject (fold : Str → Str) {c : Conv} (h : WF c) (r : Record) (cs merge : Bool) (e : Err)
+    (herr : c.addRecord fold r cs merge = .error e) :
+    Spec.afterAdd fold c.records r cs merge = none := by
+  rcases addRecord_spec fold h r cs merge with ⟨_, e'⟩ | ⟨j, hj, hothers, hjt, e'⟩ | ⟨⟨x, hx, y, hy, hne, hpx, hpy⟩, _⟩
+  · rw [e'] at herr; cases herr
+  · have hf := filter_eq_singleton (fun x => matchesRec fold cs r x) c.records j hj hothers hjt
+    rw [e'] at herr
+    cases merge with
+    | true => simp at herr
+    | false =>
+      unfold Spec.afterAdd
+      rw [hf]
+      simp
+  · have hl := filter_length_two (fun x => matchesRec fold cs r x) c.records x y hx hy hne hpx hpy
+    unfold Spec.afterAdd
+    match hm : c.records.filter (fun x => matchesRec fold cs r x), hl with
+    | [], hl => simp at hl
+    | [_], hl => simp at hl
+    | _ :: _ :: _, _ => rfl
+
+/-- **C05 (histories refine a function on record lists).** After any history of `add_record` / `add_prefix` calls —
+accepted, merged or rejected — from any well-formed converter, the records of the converter are what folding
+`Spec.afterAddOrSame` over the history gives: the five lookup structures, the matching through them and the
+re-indexing after merges never make the records differ from this index-free description. -/
+theorem C05_records_refine (fold : Str → Str) (c : Conv) (h : WF c) (ops : List AddOp) (hr : ∀ op ∈ ops, RecOK op.r) :
+    (runOps fold c ops).records =
+      ops.foldl (fun recs op => Spec.afterAddOrSame fold recs op.r op.cs op.merge) c.records := by
+  unfold runOps
+  induction ops generalizing c with
+  | nil => rfl
+  | cons op ops ih =>
+    simp only [List.foldl_cons]
+    cases hok : c.addRecord fold op.r op.cs op.merge with
+    | ok c' =>
+      simp only
+      rw [ih c' (wf_addRecord fold h (hr op (by simp)) hok) (fun o ho => hr o (by simp [ho]))]
+      unfold Spec.afterAddOrSame
+      rw [C05_afterAdd fold h op.r op.cs op.merge hok]
+      rfl
+    | error e =>
+      simp only
+      rw [ih c h (fun o ho => hr o (by simp [ho]))]
+      unfold Spec.afterAddOrSame
+      rw [C05_afterAdd_reject fold h op.r op.cs op.merge e hok]
+      rfl
+
+/-- the premises are satisfiable: a one-record converter, a merge that adds a synonym -/
+example : Spec.afterAdd id [{ pfx := [97], uri := [104] }] { pfx := [97], uri := [105], pSyn := [[98]] } true true =
+    some [{ pfx := [97], uri := [104], pSyn := [[98]], uSyn := [[105]] }] := by decide
